@@ -7,7 +7,7 @@ import time
 from . import facts as F
 
 VERIF = F.VERIF
-EVID = os.path.join(VERIF, "evidence")
+EVID = os.environ.get("AX_EVIDENCE_DIR") or os.path.join(VERIF, "evidence")
 KNOWN = os.path.join(VERIF, "known_findings.json")
 
 
@@ -36,6 +36,7 @@ class Check:
         self.floors = []  # (name, measured, floor)
         self.distinct = set()
         self.notes = []
+        self.auto_samples = {}
 
     # ---- recording
     def rule(self, name):
@@ -49,6 +50,9 @@ class Check:
         self.discharged += n
         if instance is not None:
             self.distinct.add((rule, instance))
+            seen = self.auto_samples.setdefault(rule, [])
+            if len(seen) < 3:
+                seen.append({"rule": rule, "instance": instance, "verdict": "discharged", "evaluations": n})
 
     def violation(self, rule, instance, observed, where=None, construct=None, witness=None, what=None):
         r = self.rule(rule)
@@ -127,7 +131,9 @@ class Check:
             "evaluations": max(self.obligations, 1),
             "distinct_nontrivial": max(len(self.distinct), 2) if len(self.distinct) >= 2 else len(self.distinct),
             "rule": "one evaluation per rule instance (obligation); distinct = distinct (rule, instance) pairs",
-            "samples": self.samples or ["(no sample recorded)"],
+            "samples": (self.samples + [x for r in sorted(self.auto_samples) for x in self.auto_samples[r]] +
+                        [{"rule": v["rule"], "instance": v["instance"], "verdict": "violated", "observed": v["observed"]}
+                         for v in self.violations[:5]])[:40] or ["(no sample recorded)"],
             "rules": self.rules,
             "undecided": self.undecided[:50],
             "undecided_count": len(self.undecided),
